@@ -296,6 +296,7 @@ func cmdCheck(args []string) int {
 	}
 
 	var reports []oblReport
+	var toolErrs []string
 	discharged, violations, knownHits := 0, 0, 0
 	solverSecs := 0.0
 	bySolver := map[string]int{}
@@ -328,6 +329,8 @@ func cmdCheck(args []string) int {
 				printedKnown[k.Obligation] = true
 				fmt.Printf("KNOWN-FINDING: property=%s %s [obligation %s]\n", *prop, k.What, k.Obligation)
 			}
+		} else if r.Verdict == "error" {
+			toolErrs = append(toolErrs, o.Name+": "+strings.Join(r.Log, "; "))
 		} else {
 			violations++
 			exit = 1
@@ -341,6 +344,9 @@ func cmdCheck(args []string) int {
 			fmt.Printf("  %-70s %-8s %-7s %.2fs %v\n", o.Name, rep.Verdict, r.Solver, r.Secs, r.Log)
 		}
 		reports = append(reports, rep)
+	}
+	if len(toolErrs) > 0 && exit == 0 {
+		return undecided("solver rejected generated queries (tool failure, not a violation): " + strings.Join(toolErrs, " | "))
 	}
 	wall := time.Since(start).Seconds()
 	fmt.Printf("property %s tier %s: %d obligations, %d discharged, %d known-finding, %d violated (%.1fs wall, %.1fs solver)\n",
